@@ -403,7 +403,12 @@ class MultiServiceResponsePacket(SendUnitDataResponsePacket):
 
     def _parse_reply(self):
         super()._parse_reply()
-        if self._error is not None or self.command_status != SUCCESS or not self.data:
+        if (
+            self._error is not None
+            or self.command_status != SUCCESS
+            or self.raw[49:50] != b"\x00"  # additional status follows: an error reply, not service replies
+            or not self.data
+        ):
             # unparsable reply, encapsulation error or an error reply without service replies:
             # there is nothing to split, the requests are failed with this reply's error
             return
